@@ -609,7 +609,7 @@ def describe_steps(case, k):
         else:
             out.append(f"PeeweeStorage({'testing=' + str(s['testing']) if not s.get('file') else 'filepath=' + s['file']})"
                        + ("" if s.get("touch") else " unread") + (" closed" if s.get("close") else " left open"))
-    return ("in the same process: " + ", ".join(out)) if out else "nothing else in the process"
+    return ("(earlier in the same process) " + ", ".join(out)) if out else "nothing else in the process"
 
 
 def oracle(case, run):
